@@ -823,8 +823,11 @@ template <typename T> void huge_weight(const Case& cs, const char* tname) {
     else if (via == 1) { tdigest<T> cp(td); td.merge(cp); }
     else { tdigest<T> cp(td); cp.merge(td); td = std::move(cp); }
   }
-  const uint64_t total = m << d;
-  std::ostringstream c; c << "tdigest<" << tname << "> k=" << k << " " << m << " values doubled " << d << " times (total weight " << total << "): ";
+  // a few single values on top (new maxima / minima): totals like 2^25 + 2 need more significant bits than the doubled weights alone
+  const uint64_t extra = static_cast<uint64_t>(cs.get("extra", 0)) % 5;
+  for (uint64_t j = 0; j < extra; ++j) { const T v = (j & 1) ? static_cast<T>(vals.front() - 1 - static_cast<T>(j)) : static_cast<T>(vals.back() + 1 + static_cast<T>(j)); td.update(v); vals.push_back(v); std::sort(vals.begin(), vals.end()); }
+  const uint64_t total = (m << d) + extra;
+  std::ostringstream c; c << "tdigest<" << tname << "> k=" << k << " " << m << " values doubled " << d << " times + " << extra << " single values (total weight " << total << "): ";
   const std::string ctx = c.str();
   VF_CHECK(static_cast<uint64_t>(td.get_total_weight()) == total, "total-weight", ctx << "get_total_weight " << td.get_total_weight());
   VF_CHECK(!td.is_empty() && td.get_min_value() == vals.front() && td.get_max_value() == vals.back(), "min-exact", ctx << "min " << td.get_min_value() << " max " << td.get_max_value() << " expected " << vals.front() << " " << vals.back());
@@ -858,7 +861,7 @@ void prop_huge(const Case& cs) {
 }
 rc::Gen<Case> gen_huge() {
   using namespace vf;
-  return make_case({{"type", pick({0, 1})}, {"k", pick({0, 1, 2, 3, 4})}, {"m", range(0, 59)}, {"d", rc::gen::weightedOneOf<int64_t>({{1, range(0, 20)}, {3, range(21, 45)}})}, {"via", pick({0, 1, 2})}, {"seed", range(1, 1 << 20)}},
+  return make_case({{"type", pick({0, 1})}, {"k", pick({0, 1, 2, 3, 4})}, {"m", range(0, 59)}, {"d", rc::gen::weightedOneOf<int64_t>({{1, range(0, 20)}, {3, range(21, 45)}})}, {"via", pick({0, 1, 2})}, {"extra", pick({0, 1, 2, 3, 4})}, {"seed", range(1, 1 << 20)}},
                    rc::gen::just(std::vector<Op>{}));
 }
 
